@@ -66,6 +66,7 @@ func c08Scenario(c c08Case) *vsched.Scenario {
 				vsched.Obs("stop", "%s", c.Sig)
 				stopAt = a.now()
 				vsched.Pre("harness:cancel", a.cancel)()
+				vsched.Obs("cancel-done", "")
 			}
 			arm := make(chan struct{})
 			armed := false
@@ -218,8 +219,10 @@ func c08Check(c c08Case, x *vsched.Exec, a *advWorld, stopAt time.Duration) (out
 		// A transmission that fails *before* anybody asked to stop is an ordinary task
 		// failure (C10's subject); C08 speaks about the executions in which the stop
 		// came first and the failure happened while stopping.
+		// ("came first" = the task's context was cancelled; the signal being recorded is
+		// not yet a request to the task.)
 		for _, e := range x.Log {
-			if e.Kind == "stop" {
+			if e.Kind == "cancel-done" {
 				break
 			}
 			if e.Kind == "write-end" && !strings.HasSuffix(e.Detail, "err=<nil>") {
